@@ -44,7 +44,11 @@ func c07Enumerate(tier string, seed int64, emit func(string, any)) {
 		"&a = a + 1; a", "&a = b; &b = a; a",
 		// work done inside sub-evaluations, reached through every way of reading a name
 		"&a = Md6; a + a", "&a = Md6; load('a') + load('a')", "&a = Md6; this.a + this.a", "&a = Md6; `{a}{a}`", "&a = Md6; [a, load('a'), this.a]", "&a = Md6; &b = a + a; b + load('b')", "func g(){ Md6 }; g() + g()", "func g(){ Md6 }; &a = g(); load('a')",
-		"&a = Md6; x = {'k': &a}; x.k", "&a = Md6; &a.compute() + 0", "&a = Ma10; load('a')", "&a = Mc10; this.a", "&a = [1..500].sum() * M; load('a') + load('a')",
+		"&a = Md6; x = {'k': &a}; x.k",
+		// ... whose value is null / is not used / is an error swallowed by ??
+		"&nv = {'a': Md1}.b; func f(){ nv; nv; nv; nv }; f()", "&nv = [Md1][1] ?? null; func f(){ nv; nv; nv }; f(); 1", "&nv = {'a': Md1}.b; &w = nv ?? 1; w + w + w",
+		// strings grown through a template made of ONE part
+		"x='a'; i=0; while i<M { x = `{[x,x,x,x]}`; i=i+1 }; 1", "x='ab'; i=0; while i<M { x = `{x + x}`; i=i+1 }; x[0]", "x='a'; i=0; while i<M { x = `{% [x,x] %}`; i=i+1 }; 1", "&a = Md6; &a.compute() + 0", "&a = Ma10; load('a')", "&a = Mc10; this.a", "&a = [1..500].sum() * M; load('a') + load('a')",
 		"[1..M]", "[M..1]", "x=[1..500]; x = x + x", "x=[1,2]; i=0; while i < M { x = x + x; i = i + 1 }; x.len()", "[1,2]*M", "x=[1]; i=0; while i<M { x = [x, x]; i=i+1 }; 1",
 		"x=[1]; i=0; while i<M { x = [x, x]; i=i+1 }; x", "x=[1]; i=0; while i<60 { x = [x, x]; i=i+1 }; toStr(x).len", "x=[1]; i=0; while i<60 { x = [x, x]; i=i+1 }; x == x",
 		"x='a'; i=0; while i<M { x = x + x; i=i+1 }; 1", "x='a'; while 1 { x = x + x }", "x='a'; while 1 { x = `{x}{x}` }", "x='ab'; i=0; while i<M { x = x + x; i=i+1 }; x[1]",
